@@ -55,6 +55,13 @@ fn content(len: u32, seed: u8) -> Vec<u8> {
   (0..len).map(|_| { x = x.wrapping_mul(1664525).wrapping_add(1013904223); (x >> 24) as u8 }).collect()
 }
 
+/// Entry names are kept as strings over {a, b, c, U+00E8, U+00E9}; on disk the last two become the single bytes 0xE8 and
+/// 0xE9, which are not valid UTF-8 (distinct names stay distinct, but only as raw bytes).
+fn os_name(name: &str) -> std::ffi::OsString {
+  use std::os::unix::ffi::OsStringExt;
+  std::ffi::OsString::from_vec(name.chars().map(|c| match c { '\u{e8}' => 0xE8u8, '\u{e9}' => 0xE9u8, c => c as u8 }).collect())
+}
+
 fn clear(path: &Path) {
   if let Ok(m) = fs::symlink_metadata(path) {
     if m.is_dir() { let _ = fs::remove_dir_all(path); } else { let _ = fs::remove_file(path); }
@@ -68,7 +75,7 @@ fn establish(path: &Path, s: &PState, mtime: FileTime) -> std::io::Result<()> {
     PState::File { len, seed } => { fs::write(path, content(*len, *seed))?; }
     PState::Dir { names } => {
       fs::create_dir(path)?;
-      for n in names { fs::write(path.join(n), b"x")?; }
+      for n in names { fs::write(path.join(os_name(n)), b"x")?; }
     }
   }
   if !matches!(s, PState::Absent) { filetime::set_file_mtime(path, mtime)?; }
@@ -218,7 +225,7 @@ pub fn check(case: &FCase, stats: &mut Stats) -> CheckResult {
 }
 
 fn name() -> impl Strategy<Value=String> {
-  proptest::collection::vec(0u8..3, 1..=3).prop_map(|v| v.into_iter().map(|b| (b'a' + b) as char).collect())
+  proptest::collection::vec(prop_oneof![6 => 0u8..3, 1 => 3u8..5], 1..=3).prop_map(|v| v.into_iter().map(|b| match b { 3 => '\u{e8}', 4 => '\u{e9}', b => (b'a' + b) as char }).collect())
 }
 
 fn pstate() -> impl Strategy<Value=PState> {
@@ -239,11 +246,11 @@ fn resplit(names: &[String], sel: u16, rev: bool) -> Vec<String> {
     let j = (sel as usize / 7) % v.len();
     let b = v.remove(j);
     v.push(if rev { format!("{}{}", b, a) } else { format!("{}{}", a, b) });
-  } else if let Some(i) = v.iter().position(|n| n.len() >= 2) {
-    let n = v.remove(i);
+  } else if let Some(i) = v.iter().position(|n| n.chars().count() >= 2) {
+    let n: Vec<char> = v.remove(i).chars().collect();
     let cut = 1 + (sel as usize / 3) % (n.len() - 1);
-    v.push(n[..cut].to_string());
-    v.push(n[cut..].to_string());
+    v.push(n[..cut].iter().collect());
+    v.push(n[cut..].iter().collect());
   }
   let mut seen = std::collections::BTreeSet::new();
   v.retain(|n| seen.insert(n.clone()));
@@ -398,7 +405,7 @@ pub fn replay(path: &Path) -> Result<CheckResult, String> {
 }
 
 pub fn run(tier: Tier, seed: u64) -> i32 {
-  let rule = "proptest-generated (state when stamped, state when checked, checker) over a real temp directory: states = absent / file of size 0,1,8191,8192,8193,16384,65537 or random <100k with pseudo-random bytes / directory whose entry names are drawn from strings over {a,b,c} of length 1-3 (so concatenations collide); modification times set explicitly (filetime) with whole-second and sub-second parts (0, 1 ns, 0.5 s, 999999999 ns), equal, within one second or seconds apart (the expectation uses the times the filesystem actually stored); oracle: stamp(path) = stamp_reader(fresh reader) = stamp_writer(writer just used through Resource::write); check vs fresh stamp consistent; after stamp_reader the full content is readable (also through a task under Pie); after moving to the second state check is inconsistent iff the observed aspect differs (existence; existence or mtime; absent<->present, file content, directory name set - file<->directory and same names re-created are not asserted); PathBuf::write truncates/creates files and refuses directories; a quarter of the file pairs change the content but keep length (and often mtime). Second search: sequences of 2-6 steps (new state or leave untouched) on ONE Pie instance / resource state: in every step all earlier stamps are checked (1-3 rounds) against the current state with the same oracle, then the state is stamped through path, fresh reader and - for files written through Resource::write - the writer, which must agree; non-trivial = the two states differ, or file >= 8 KiB buffer, or directory with >=2 entries (pairs), >=2 state changes (sequences); distinct by case hash";
+  let rule = "proptest-generated (state when stamped, state when checked, checker) over a real temp directory: states = absent / file of size 0,1,8191,8192,8193,16384,65537 or random <100k with pseudo-random bytes / directory whose entry names are drawn from strings of length 1-3 over {a,b,c} and the two non-UTF-8 bytes 0xE8/0xE9 (so concatenations collide and some names are not valid UTF-8); modification times set explicitly (filetime) with whole-second and sub-second parts (0, 1 ns, 0.5 s, 999999999 ns), equal, within one second or seconds apart (the expectation uses the times the filesystem actually stored); oracle: stamp(path) = stamp_reader(fresh reader) = stamp_writer(writer just used through Resource::write); check vs fresh stamp consistent; after stamp_reader the full content is readable (also through a task under Pie); after moving to the second state check is inconsistent iff the observed aspect differs (existence; existence or mtime; absent<->present, file content, directory name set - file<->directory and same names re-created are not asserted); PathBuf::write truncates/creates files and refuses directories; a quarter of the file pairs change the content but keep length (and often mtime). Second search: sequences of 2-6 steps (new state or leave untouched) on ONE Pie instance / resource state: in every step all earlier stamps are checked (1-3 rounds) against the current state with the same oracle, then the state is stamped through path, fresh reader and - for files written through Resource::write - the writer, which must agree; non-trivial = the two states differ, or file >= 8 KiB buffer, or directory with >=2 entries (pairs), >=2 state changes (sequences); distinct by case hash";
   let mut report = Report::new("C13", tier, seed, "exploration", rule);
   let known = Known::load("C13");
   super::prologue(&mut report, &known);
